@@ -252,6 +252,16 @@ func (eng *Engine) encodeFunc(fn *ssa.Function, ct *Contract) *FuncResult {
 			vc.oblige("post", lbl, r.guard, env.evalBool(en.Expr), en.Src, a.posOf(fn.Pos()))
 		}
 	}
+	// vacuity: every return point is reachable under the contract (a return made unreachable by a
+	// contradictory callee contract or invariant would make its postconditions hold vacuously)
+	if len(a.returns) > 1 {
+		for ri, r := range a.returns {
+			o := vc.oblige("reach", fmt.Sprintf("ret%d", ri+1), r.guard, "false", "return point is reachable under the contract", a.posOf(fn.Pos()))
+			if o != nil {
+				o.ExpectSat = true
+			}
+		}
+	}
 	// vacuity: some return is reachable
 	if len(a.returns) > 0 {
 		var gs []string
